@@ -8,10 +8,10 @@
 package vrt
 
 import (
-	"reflect"
 	"bytes"
 	"fmt"
 	"iter"
+	"reflect"
 	"runtime"
 	"sort"
 	"strconv"
@@ -75,6 +75,9 @@ type Sched struct {
 	maps   map[uintptr]*mapState
 	Races  []Race
 	raceK  map[string]bool
+	// Misuses are uses of a synchronisation primitive on which the real one panics (or may panic, depending
+	// on timing the scheduler does not model), recorded by the shims instead of crashing the worker.
+	Misuses []string
 }
 
 // Race is a pair of accesses to the same map, at least one of them a write, that no chain of
@@ -336,6 +339,16 @@ func Point(op *Op) {
 	t.pending = op
 	s.Mu.Unlock()
 	<-t.park
+}
+
+// ReportMisuse records a use of a primitive on which the real implementation panics. The caller holds s.Mu.
+func (s *Sched) ReportMisuse(what string) {
+	for _, m := range s.Misuses {
+		if m == what {
+			return
+		}
+	}
+	s.Misuses = append(s.Misuses, what)
 }
 
 // Yield is an always-enabled scheduling point.
